@@ -182,7 +182,7 @@ def run_vanish(case):
     out = []
     for f in fs:
         tail = f["sig"].split("/", 1)[1]
-        if tail.startswith(("thread-died", "handle-error", "not-accepting-below-limit")):
+        if tail.startswith(("thread-died", "handle-error", "not-accepting-below-limit", "busy-connection-reaped")):
             out.append({"sig": "C13/vanish/" + tail, "detail": "client vanished in mid-response, clock advanced: " + f["detail"]})
     reached = "clock-past-timeout" in labels
     return out, reached, {"vanish", "vanish-clock-past-timeout" if reached else "vanish-short"}, None, None
@@ -198,6 +198,17 @@ def vanish_cases():
                         ops += [["connect", 0], ["send", 2, False], ["send", 1, False], ["clock", 1]]
                         yield {"vanish": True, "cfg": {"channel_timeout": to, "cleanup_interval": 1 if to == 2 else 30, "connection_limit": 100},
                                "capacity": cap, "ops": ops}
+
+
+def vanish_other_cases():
+    """the vanished client's connection is older than a healthy one whose request is still executing (and has output pending): cleaning
+    up after the first must not touch the second"""
+    for cap in (60, 200):
+        for clocks in ([3, 3, 3], [1, 1, 1, 1, 3], [5]):
+            for threads in (1, 2):
+                ops = [["connect", 0], ["connect", 0], ["stalls", 0], ["stalls", 1], ["send", 0, False], ["send", 1, 2]] + [["clock", c] for c in clocks]
+                ops += [["finish"], ["reads", 1], ["clock", 1]]
+                yield {"vanish": True, "cfg": {"channel_timeout": 2, "cleanup_interval": 1, "connection_limit": 100, "threads": threads}, "capacity": cap, "ops": ops}
 
 
 def run_case(case):
@@ -286,7 +297,7 @@ def run_job(job, col):
 
     k = job["kind"]
     if k == "vanish":
-        for case in vanish_cases():
+        for case in list(vanish_cases()) + list(vanish_other_cases()):
             try:
                 fs, nt, labels, _t, _s = run_vanish(case)
             except C.CaseInvalid:
